@@ -335,11 +335,10 @@ def _ax4():
     ax("arity-Dict", L.FA(t, z3.Implies(z3.Or(kind(t) == K["Dict"], kind(t) == K["DefaultDict"], kind(t) == K["TupleVar"]), L.len_(args(t)) == 2), [args(t)]))
     ax("arity-Generator", L.FA(t, z3.Implies(kind(t) == K["Generator"], L.len_(args(t)) == 3), [args(t)]))
     ax("tuplevar-ellipsis", L.FA(t, z3.Implies(kind(t) == K["TupleVar"], L.nth(args(t), 1) == ELLIPSIS), [args(t)]))
-    ax("tuple-no-ellipsis", L.FA([t, i], z3.Implies(z3.And(kind(t) == K["Tuple"], 0 <= i, i < L.len_(args(t))), L.nth(args(t), i) != ELLIPSIS), [L.nth(args(t), i)]))
     ax("inv-Tuple", L.FA(t, z3.Implies(kind(t) == K["Tuple"], t == Tuple_(args(t))), [kind(t)]))
     ax("inv-Union", L.FA(t, z3.Implies(kind(t) == K["Union"], t == Union_(args(t))), [kind(t)]))
     ax("ellipsis-kind", kind(ELLIPSIS) == K["Other"])
-    ax("args-not-none", L.FA([t, i], z3.Implies(z3.And(0 <= i, i < L.len_(args(t))), L.nth(args(t), i) != L.NONE), [L.nth(args(t), i)]))
+    # (args-not-none and tuple-no-ellipsis are stated on well-formed types only: theories/rewriters.py - the constructors are total)
 
 
 _ax4()
